@@ -114,7 +114,7 @@ class Ctx:
             n = self._begins
             kind = case.get("kind") if isinstance(case, dict) else None
             fresh_kind = kind is not None and kind not in self._kinds
-            if fresh_kind or (n >= self._sample_every and len(self._kinds) <= 1):
+            if fresh_kind or (n >= self._sample_every and (kind is None or len(self.samples) < 2)):
                 self._kinds.add(kind)
                 self._sample_every = max(n * 5, 2)
                 self.samples.append(clip(sample if sample is not None else case))
